@@ -56,6 +56,10 @@ def main(argv) -> int:
             break
         rng = rng_for(prop, seed, i)
         sc = mod.generate(rng, tier)
+        if getattr(mod, "VARY_ARGFORM", False):  # drawn last: the rest of the scenario is what it was before
+            from .core import ARGFORMS
+
+            sc["argform"] = rng.choice(ARGFORMS)
         sc.update({"property": prop, "seed": seed, "run": i, "format": 1})
         with open(curfile, "w") as cf:  # if the process dies inside the library, the driver knows where
             cf.write(jdump(sc))
